@@ -546,6 +546,10 @@ class PyExec:
                 if k == "raise":
                     out.append((k, v, s))
                     continue
+                if isinstance(v, Opaque):
+                    s.effects.append(("opaque-setattr", v.what, target.attr))
+                    out.append(("fall", None, s))
+                    continue
                 if not isinstance(v, Ref):
                     raise Unsupported("attribute store on %r" % (v,))
                 s.objs[v.oid]["fields"][target.attr] = value
@@ -1554,6 +1558,10 @@ class PyExec:
                 return [("val", Const(bool(np.can_cast(np.dtype(self.dtype_name(args[0])), np.dtype(self.dtype_name(args[1]))))), st)]
             except (TypeError, Unsupported):
                 raise Unsupported("np.can_cast on non-dtype arguments")
+        if name in ("ZipFile", "open", "fdopen", "NamedTemporaryFile", "TemporaryFile"):
+            # a file is opened by the code itself: recorded; the handle is opaque
+            st.effects.append(("file-open", name, tuple(args), dict(kwargs)))
+            return [("val", Opaque("file:" + name), st)]
         if name == "Path":
             r = Opaque("Path")
             r.src = args[0] if args else None
@@ -1648,7 +1656,7 @@ class PyExec:
             v.origin = ("bytes", src)
             return [("val", v, st)]
         if name == "type":
-            return [("val", Const("<type>"), st)]
+            return [("val", Opaque("type"), st)]  # only ever formatted / named in this code base
         if name == "bool":
             t = self.truth(args[0])
             return [("val", Const(t) if isinstance(t, bool) else Sym(t, "bool"), st)]
